@@ -99,6 +99,13 @@ def replay(arg):
     aps = [("inf" if a.ap == float("inf") else a.ap) for a in sc.maps[0].aps] if sc.maps else []
     if len(aps) != len(scene) or not all(pipeline.ap_equal(a, tuple(b)) for a, b in zip(aps, scene)):
         mism.append(("scene-score", "scene AP %s, specification %s" % (aps, scene), rep))
+    # mAP of the scene = mean of the per-label APs that are defined
+    if sc.maps and len(aps) == len(scene):
+        defined = [a for a in aps if a != "inf"]
+        want_map = sum(defined) / len(defined) if defined else float("inf")
+        got_map = sc.maps[0].map
+        if (want_map == float("inf")) != (got_map == float("inf")) or (want_map != float("inf") and abs(got_map - want_map) > 1e-9):
+            mism.append(("scene-map", "scene mAP %r, mean of the defined per-label APs %r" % (got_map, want_map), rep))
     want_gt = sum(sum(r["numgt"]) for r in frs)
     if sc.num_ground_truth != want_gt:
         mism.append(("scene-gt-count", "scene ground-truth count %s, specification %s" % (sc.num_ground_truth, want_gt), rep))
